@@ -5,10 +5,18 @@ def run(chk, tier):
     spawnprops.run(chk, tier, "C08")
     import pipeprops
     pipeprops.c08_pipelines(chk, tier)
+    pipeprops.c08_threads(chk, tier)
 
 
 def replay(chk, path):
     lines = [l.rstrip("\n") for l in open(path, encoding="utf-8") if l.strip() and not l.startswith("#")]
+    if lines and lines[0].startswith("threads "):
+        import pipeprops
+        import common as C
+        chk.obligations(C.props_check("C08", spawnprops.DEPS))
+        C.build_harness()
+        pipeprops.c08_threads(chk, "quick")
+        return
     if lines and lines[0].startswith("{"):
         import pipeprops
         import common as C
